@@ -300,7 +300,7 @@ def correspond(ctx):
     dct, xml_ct, rels_ct = spec_tables()
     lines, impl, metas = [], [], []
     tmp = common.scratch()
-    n = 250 if ctx.quick else 4000
+    n = 700 if ctx.quick else 8000
     for i in range(n):
         pkg = gen_package(rng, dct)
         data = to_zip_bytes(pkg)
@@ -345,7 +345,7 @@ def correspond(ctx):
     # corpus decks: registered part classes (XML parts are re-serialised); property oracle only
     decks = common.corpus_decks()
     if ctx.quick:
-        decks = decks[:: max(1, len(decks) // 12)]
+        decks = decks[:: max(1, len(decks) // 30)]
     for deck in decks:
         run_corpus(ctx, deck)
 
